@@ -588,6 +588,97 @@ namespace Cat.Gen
 
 
 
+# ------------------------------------------------------------------------------------ T6
+# which functions take input (`read_cmd_char`, as their first statement, returning OK when nothing
+# was read) and which offer output (`io->write`); mapped through the T4 arms to the states in
+# which the machines read and write.  `Proofs/Dispatch.lean` proves the model's `Reading`
+# predicate and its writing states equal to these lists.
+
+def _walk(n):
+    yield n
+    for c in n.get("inner", []) or []:
+        if isinstance(c, dict):
+            yield from _walk(c)
+
+
+def _calls_fn(n, name):
+    for x in _walk(n):
+        if x.get("kind") == "CallExpr" and x.get("inner"):
+            cal = strip(x["inner"][0])
+            if cal.get("referencedDecl", {}).get("name") == name:
+                return True
+    return False
+
+
+def _calls_member(n, member):
+    """a call through self->io-><member>"""
+    for x in _walk(n):
+        if x.get("kind") == "CallExpr" and x.get("inner"):
+            cal = strip(x["inner"][0])
+            if cal.get("kind") == "MemberExpr" and cal.get("name") == member and cal.get("inner"):
+                base = strip(cal["inner"][0])
+                if base.get("kind") == "MemberExpr" and base.get("name") == "io":
+                    return True
+    return False
+
+
+def _guarded_read_first(body):
+    """first statement is  if (read_cmd_char(self) == 0) return CAT_STATUS_OK;  and no other call of it follows"""
+    sts = [x for x in body.get("inner", []) if not is_noise(x) and x.get("kind") != "DeclStmt"]
+    if not sts or sts[0].get("kind") != "IfStmt":
+        return False
+    cond, then = sts[0]["inner"][0], sts[0]["inner"][1]
+    c = strip(cond)
+    if not (c.get("kind") == "BinaryOperator" and c.get("opcode") == "==" and _calls_fn(c["inner"][0], "read_cmd_char")):
+        return False
+    z = strip(c["inner"][1])
+    if not (z.get("kind") == "IntegerLiteral" and z.get("value") == "0"):
+        return False
+    rets = [x for x in _walk(then) if x.get("kind") == "ReturnStmt"]
+    if len(rets) != 1:
+        return False
+    r = strip(rets[0]["inner"][0])
+    if r.get("referencedDecl", {}).get("name") != "CAT_STATUS_OK":
+        return False
+    if len(sts[0]["inner"]) > 2:
+        return False
+    return not any(_calls_fn(x, "read_cmd_char") for x in sts[1:])
+
+
+def t6(ast, arms_c, arms_u):
+    """arms_*: state (Lean name) -> C function dispatched to (or None for inline arms)"""
+    readers, writers = [], []
+    for n in ast["inner"]:
+        if n.get("kind") != "FunctionDecl" or n.get("name") == "read_cmd_char":
+            continue
+        body = [c for c in n.get("inner", []) if c.get("kind") == "CompoundStmt"]
+        if not body:
+            continue
+        if _calls_fn(body[0], "read_cmd_char"):
+            if not _guarded_read_first(body[0]):
+                raise Unrecognised("T6: %s does not start with `if (read_cmd_char(self) == 0) return CAT_STATUS_OK;`" % n["name"])
+            readers.append(n["name"])
+        if _calls_member(body[0], "write"):
+            writers.append(n["name"])
+        if n.get("name") != "read_cmd_char" and _calls_member(body[0], "read"):
+            raise Unrecognised("T6: %s calls io->read directly" % n["name"])
+    for fn in readers + writers:
+        if fn not in list(arms_c.values()) + list(arms_u.values()):
+            raise Unrecognised("T6: %s takes input or offers output but is not a dispatch target" % fn)
+    rs = [st for st, fn in arms_c.items() if fn in readers]
+    if any(fn in readers for fn in arms_u.values()):
+        raise Unrecognised("T6: the unsolicited machine reads input")
+    ws = [st for st, fn in arms_c.items() if fn in writers]
+    wu = [st for st, fn in arms_u.items() if fn in writers]
+    return ("/-- T6: the states whose function begins with `if (read_cmd_char(self) == 0) return CAT_STATUS_OK;`\n"
+            "(no other function calls `read_cmd_char`, none calls `io->read` directly) -/\n"
+            "def readingStates : List CState := [%s]\n\n"
+            "/-- T6: the states whose function calls `io->write` -/\n"
+            "def writingStates : List CState := [%s]\n"
+            "def uwritingStates : List UState := [%s]"
+            % (", ".join("." + x for x in rs), ", ".join("." + x for x in ws), ", ".join("." + x for x in wu)))
+
+
 # ------------------------------------------------------------------------------------ T4
 # the two state dispatchers (`cat_service`, `unsolicited_events_service`) as Lean `match`es over the
 # model's functions: Gen/Dispatch.lean.  `Proofs/Dispatch.lean` proves them equal to the
@@ -691,8 +782,22 @@ def _arm_term(stmts, default_status):
     raise Unrecognised("unrecognised dispatch arm")
 
 
+def _arm_fn(stmts):
+    """the C function a dispatch arm calls first (None for an empty arm)"""
+    sts = [x for x in stmts if x.get("kind") != "BreakStmt" and not is_noise(x)]
+    if not sts:
+        return None
+    first = strip(sts[0])
+    if first.get("kind") == "BinaryOperator" and first.get("opcode") == "=":
+        return _call_of(first["inner"][1])[0]
+    if first.get("kind") == "CallExpr":
+        return _call_of(first)[0]
+    return None
+
+
 def t4(ast):
     out = []
+    allarms = []
     for fn, states, lean_name, field, styp, default_status in (
             ("cat_service", CSTATE, "commandDispatch", "state", "CState", None),
             ("unsolicited_events_service", USTATE, "unsolicitedDispatch", "ustate", "UState", "Gen.CAT_STATUS_OK")):
@@ -700,6 +805,7 @@ def t4(ast):
         sw = _find_switch(body)
         arms = switch_arms(sw, None, None)
         seen = {}
+        fnof = {}
         for labels, stmts in arms:
             for lb in labels:
                 if lb == "default":
@@ -710,6 +816,7 @@ def t4(ast):
                 if "?" in term:
                     raise Unrecognised("missing fsm argument in %s" % fn)
                 seen[states[lb]] = term
+                fnof[states[lb]] = _arm_fn(stmts)
         missing = [v for v in states.values() if v not in seen]
         if missing:
             raise Unrecognised("states without an arm in %s: %s" % (fn, missing))
@@ -717,13 +824,16 @@ def t4(ast):
         for v in states.values():
             lines.append("  | .%s => %s" % (v, seen[v]))
         out.append("\n".join(lines))
-    hdr = ("/-\n  GENERATED by tools/translate.py from the two state switches of src/cat.c (T4). Do not edit.\n"
+        allarms.append(fnof)
+    out.append(t6(ast, allarms[0], allarms[1]))
+    hdr = ("/-\n  GENERATED by tools/translate.py from the two state switches of src/cat.c (T4) and the call sites of\n  `read_cmd_char` / `io->write` (T6). Do not edit.\n"
            "  `Proofs/Dispatch.lean` proves these equal to the hand-written dispatchers of the model.\n-/\n"
            "import CatVerif.Model.Fsm\nnamespace Cat.Gen\nopen Cat\n\n")
     return hdr + "\n\n".join(out) + "\n\nend Cat.Gen\n"
 
 
 def regenerate_dispatch(ast=None):
+    key = "T4"
     try:
         txt = t4(ast or load_ast())
         status = "translated"
@@ -732,12 +842,17 @@ def regenerate_dispatch(ast=None):
             return {"T4": "failed: " + repr(ex)[:200]}
         txt = open(EXPECTED_DISPATCH).read()
         status = "fallback to expected text: " + repr(ex)[:200]
+        if "T6:" in repr(ex):
+            # the switches themselves were recognised; only the reader/writer sets were not
+            key = "T6"
     with lib.Lock("gen"):
         old = open(GEN_DISPATCH).read() if os.path.exists(GEN_DISPATCH) else ""
         if old != txt:
             with open(GEN_DISPATCH, "w") as f:
                 f.write(txt)
-    return {"T4": status}
+    if key == "T6":
+        return {"T4": "translated", "T6": status}
+    return {"T4": status, "T6": status}
 
 
 def expected_defs():
